@@ -73,8 +73,29 @@ def fluid(T, trs):
 
 
 @st.composite
+def huge_limit_cases(draw):
+    """One limit many orders of magnitude above the others (it dominates every sum of limits) in a tie-free setting: all
+    arrivals on dates of the grid, no removals, the ordinary transfers outlast the huge one (an arrival or removal an ulp
+    before or after a completion makes all the difference next to such a limit, see section 10)."""
+    T = draw(st.sampled_from([1, 2, 4]))
+    kids = []
+    for i in range(draw(st.integers(1, 3))):
+        kids.append({'name': 't%d' % i, 'steps': [{'op': 'sleep', 'd': draw(st.sampled_from([0, 0.5, 1]))},
+                                                  {'op': 'transfer', 'p': 0, 'total': draw(st.sampled_from([16, 24, 40])),
+                                                   'thr': draw(st.sampled_from([0.5, 1, 1, 2]))}]})
+    kids.append({'name': 't9', 'steps': [{'op': 'sleep', 'd': draw(st.sampled_from([1.5, 2, 3]))},
+                                         {'op': 'transfer', 'p': 0, 'total': draw(st.sampled_from([2, 4, 8])),
+                                          'thr': draw(st.sampled_from([2.0 ** 60, 2.0 ** 70, 2.0 ** 55]))}]})
+    roots = [{'name': 'r0', 'steps': [{'op': 'scope', 'name': 'S', 'children': kids, 'body': [], 'catch': True}]},
+             {'name': 'fin', 'steps': [{'op': 'at_ge', 't': 1000}, {'op': 'transfer', 'p': 0, 'total': 4, 'thr': None}]}]
+    return {'prog': {'start': 0, 'objs': {'pipes': [{'thr': T}]}, 'roots': roots}, 'targets': [k['name'] for k in kids], 'faults': []}
+
+
+@st.composite
 def cases(draw, tier):
     big = tier == 'thorough'
+    if draw(st.integers(0, 9)) == 0:
+        return draw(huge_limit_cases())
 
     def pipe_spec():
         r = draw(st.integers(0, 11))
@@ -90,11 +111,7 @@ def cases(draw, tier):
     def transfer(pi=None, first=True):
         V = draw(st.sampled_from([0, 0.5, 1, 2, 3, 4, 6, 8, 12]))
         L = draw(st.sampled_from([None, None] + DY + ['inf']))        # 'inf': limited by the pipe only, like None
-        if first and draw(st.integers(0, 9)) == 0:
-            # (only for a transfer that starts on a date of the grid: arriving an ulp before or after the completion of
-            #  another transfer makes all the difference for such a limit, see section 10)
-            # one limit orders of magnitude above the others (exactly representable): it dominates every sum of limits
-            L = draw(st.sampled_from([2.0 ** 60, 2.0 ** 70, 2.0 ** 40]))
+
         return {'op': 'transfer', 'p': draw(st.integers(0, len(pipes) - 1)) if pi is None else pi, 'total': V, 'thr': L}
     for i in range(n):
         tr = transfer()
